@@ -6,6 +6,7 @@ import (
 
 	"github.com/go-shiori/dom"
 	vx "github.com/markusmobius/go-domdistiller/internal/zzverif"
+	"golang.org/x/net/html"
 )
 
 func zzSame(a, b *Result, what string) {
@@ -43,8 +44,22 @@ func HarnessC13Options() {
 		opts.PaginationAlgo = PageNumber
 	}
 	skip, algo := opts.SkipPagination, opts.PaginationAlgo
-	r0, e0 := Apply(vx.ParseHTML(page), ref)
-	r1, e1 := Apply(vx.ParseHTML(page), opts)
+	// the root handed to Apply: the document, or (if the page has one) a table element
+	rootOf := func() *html.Node {
+		d := vx.ParseHTML(page)
+		return d
+	}
+	if vx.Choose("root", 2) == 1 {
+		rootOf = func() *html.Node {
+			d := vx.ParseHTML(page)
+			if t := dom.QuerySelector(d, "table"); t != nil {
+				return t
+			}
+			return d
+		}
+	}
+	r0, e0 := Apply(rootOf(), ref)
+	r1, e1 := Apply(rootOf(), opts)
 	vx.Assert(e0 == nil && e1 == nil && r0 != nil && r1 != nil, "Apply failed")
 	if r0 == nil || r1 == nil {
 		return
@@ -55,6 +70,12 @@ func HarnessC13Options() {
 		want = urlStr
 	}
 	vx.Assert(r1.URL == want, "Result.URL is not the supplied page URL")
+	// the same Options value used again: still the supplied URL, same result
+	r1b, _ := Apply(rootOf(), opts)
+	vx.Assert(r1b != nil && r1b.URL == want, "Result.URL is not the supplied page URL when the Options value is used a second time")
+	if r1b != nil {
+		zzSame(r1, r1b, "same options, second call")
+	}
 	if skip || !withURL {
 		vx.Cover("no-pagination")
 		vx.Assert(r1.PaginationInfo.NextPage == "" && r1.PaginationInfo.PrevPage == "", "PaginationInfo not empty although pagination is skipped or no URL was given")
@@ -63,7 +84,7 @@ func HarnessC13Options() {
 		// same algorithm, different log flags: PaginationInfo must agree too
 		o2 := mk()
 		o2.PaginationAlgo = algo
-		r2, _ := Apply(vx.ParseHTML(page), o2)
+		r2, _ := Apply(rootOf(), o2)
 		vx.Assert(r2 != nil && r2.PaginationInfo.NextPage == r1.PaginationInfo.NextPage && r2.PaginationInfo.PrevPage == r1.PaginationInfo.PrevPage,
 			"log flags change PaginationInfo")
 		if r1.PaginationInfo.NextPage != "" {
